@@ -847,6 +847,62 @@ theorem cntInv_sync {st st' : State} {m m' : Mon} {c c' : Cache} (b : Bool) (h :
     · exact h.may c hc (by simpa using he)
     · simp at he
 
+/-! ### requests in flight, token accounting, rebuilds -/
+
+def GFC.wkind : GFC → Nat
+  | .empty _ => 1
+  | .miw _ => 2
+  | .tbw _ => 3
+
+
+/-- does this request count against the limiter inside the remote wrapper now? -/
+def flagOf (c : Cache) (h : Handle) : Bool :=
+  decide (h.side = .rem) && decide (h.gen = c.fl.remOuter) && decide (h.inner = c.fl.remInner) && c.remote.isSome
+
+/-- what the monitor's `held` list must be -/
+def heldOf (co : Option Cache) (hs : List Handle) : List (Nat × Bool) :=
+  match co with
+  | some c => hs.map fun h => (h.id, flagOf c h)
+  | none => hs.map fun h => (h.id, false)
+
+theorem heldOf_any (co : Option Cache) (hs : List Handle) (id : Nat) :
+    (heldOf co hs).any (·.1 == id) = hs.any (·.id == id) := by
+  cases co <;> simp [heldOf, List.any_map, Function.comp_def]
+
+theorem heldOf_filter (co : Option Cache) (hs : List Handle) (id : Nat) :
+    (heldOf co hs).filter (fun h => !(h.1 == id)) = heldOf co (hs.filter fun x => !(x.id == id)) := by
+  cases co <;> simp [heldOf, List.filter_map, Function.comp_def]
+
+theorem heldOf_countP (c : Cache) (hs : List Handle) : (heldOf (some c) hs).countP (·.2) = hs.countP (flagOf c) := by
+  simp [heldOf, List.countP_map, Function.comp_def]
+
+structure FlInv (cfg : Cfg) (st : State) (m : Mon) : Prop where
+  cfgv : st.cfgv = cfg
+  applied : ∀ c r, st.cache = some c → c.remote = some r → m.applied = r.appliedConfig
+  owed : ∀ w, gfcOf st = some (.tbw w) → w.tokenInflight = m.owed
+  must : m.mustEvent = true → ∃ c g, st.cache = some c ∧ gfcOf st = some g ∧ GFC.wkind g ≠ 1 ∧ c.cnt.event = true
+  held : m.held = heldOf st.cache st.handles
+  nodup : (st.handles.map (·.id)).Nodup
+  gens : ∀ c, st.cache = some c → ∀ h ∈ st.handles, h.side = .rem → h.gen ≤ c.fl.remOuter
+  nocache : st.cache = none → ∀ h ∈ st.handles, h.side = .dflt
+  cur : m.tainted = false → ∀ c, st.cache = some c →
+    c.fl.remCount = (st.handles.countP (flagOf c) : Int) ∧
+    ∀ h ∈ st.handles, h.side = .rem → h.gen = c.fl.remOuter → c.remote.isSome = true → h.inner = c.fl.remInner
+
+/-- nothing that `FlInv` talks about changes -/
+theorem flInv_frame {cfg : Cfg} {st st' : State} {m m' : Mon} (h : FlInv cfg st m) (hc : st'.cache = st.cache)
+    (hh : st'.handles = st.handles) (hv : st'.cfgv = st.cfgv)
+    (e1 : m'.applied = m.applied) (e2 : m'.owed = m.owed) (e3 : m'.mustEvent = m.mustEvent)
+    (e4 : m'.held = m.held) (e5 : m'.tainted = m.tainted) : FlInv cfg st' m' := by
+  have hg : gfcOf st' = gfcOf st := by simp only [gfcOf, hc]
+  refine ⟨by rw [hv]; exact h.cfgv, ?_, ?_, ?_, by rw [e4, hc, hh]; exact h.held, by rw [hh]; exact h.nodup, ?_, ?_, ?_⟩
+  · intro c r a b; rw [e1]; exact h.applied c r (by rw [← hc]; exact a) b
+  · intro w a; rw [e2]; exact h.owed w (by rw [← hg]; exact a)
+  · intro a; rw [e3] at a; rw [hc, hg]; exact h.must a
+  · intro c a; rw [hh]; exact h.gens c (by rw [← hc]; exact a)
+  · intro a; rw [hh]; exact h.nocache (by rw [← hc]; exact a)
+  · intro a c b; rw [hh]; exact h.cur (by rw [← e5]; exact a) c (by rw [← hc]; exact b)
+
 structure Inv (K : Kind) (cfg : Cfg) (st : State) (m : Mon) : Prop where
   meter : m.meter = st.meter
   meterOK : 0 < st.meter.rateDen
@@ -859,10 +915,13 @@ structure Inv (K : Kind) (cfg : Cfg) (st : State) (m : Mon) : Prop where
   cache : CInv K st.cache m
   leader : m.leader = st.leader
   cnt : CntInv st m
+  fl : FlInv cfg st m
 
-theorem inv_init (K : Kind) (cfg : Cfg) : Inv K cfg {} {} := by
-  refine ⟨rfl, by decide, rfl, rfl, ?_, ?_, BLe.refl _, fun _ => rfl, rfl, rfl,
-    ⟨rfl, Int.le_refl _, fun c hc => (by cases hc), fun c hc _ => (by cases hc)⟩⟩
+theorem inv_init (K : Kind) (cfg : Cfg) : Inv K cfg (initState cfg) {} := by
+  refine ⟨rfl, (by simp [initState] : (0:Int) < _), rfl, rfl, ?_, ?_, BLe.refl _, fun _ => rfl, rfl, rfl,
+    ⟨rfl, Int.le_refl _, fun c hc => (by cases hc), fun c hc _ => (by cases hc)⟩,
+    ⟨rfl, fun c r hc => (by cases hc), fun w hw => (by simp [gfcOf, initState] at hw), fun h => (by cases h), rfl,
+      List.nodup_nil, fun c hc => (by cases hc), fun _ h hh => (by cases hh), fun _ c hc => (by cases hc)⟩⟩
   · cases cfg with | mk rl cs => cases rl <;> rfl
   · constructor <;> simp [maxInt32] <;> decide
 
@@ -1022,7 +1081,7 @@ theorem inv_of_frame {K : Kind} {cfg : Cfg} {st st' : State} {m m' : Mon} (hi : 
     (e_gs : m'.gs = m.gs) (e_ob : m'.ob = if (observe cfg st').unavail then m.ob.sup m.gs else m.gs)
     (e_prev : m'.prev = observe cfg st') (e_meter : m'.meter = st'.meter) (hmok : 0 < st'.meter.rateDen)
     (e_sh : m'.shards = st'.shardCount) (e_hb : HBInv st'.hb m'.hist) (e_leader : m'.leader = st'.leader)
-    (e_cnt : CntInv st' m') : Inv K cfg st' m' := by
+    (e_cnt : CntInv st' m') (e_fl : FlInv cfg st' m') : Inv K cfg st' m' := by
   have hun : (observe cfg st').unavail = (observe cfg st).unavail := by
     rw [observe_unavail, observe_unavail, gfcOf_cache hc]
   have hob : m'.ob = m.ob := by
@@ -1030,7 +1089,7 @@ theorem inv_of_frame {K : Kind} {cfg : Cfg} {st st' : State} {m m' : Mon} (hi : 
     cases hu : (observe cfg st).unavail with
     | true => simp only [if_true]; exact sup_eq_left hi.gsob
     | false => simp only [Bool.false_eq_true, if_false]; exact (hi.obgs hu).symm
-  refine ⟨e_meter, hmok, e_sh, e_hb, e_prev, by rw [e_gs]; exact hi.gsOK, by rw [e_gs, hob]; exact hi.gsob, ?_, ?_, e_leader, e_cnt⟩
+  refine ⟨e_meter, hmok, e_sh, e_hb, e_prev, by rw [e_gs]; exact hi.gsOK, by rw [e_gs, hob]; exact hi.gsob, ?_, ?_, e_leader, e_cnt, e_fl⟩
   · intro hu
     rw [hob, e_gs]
     exact hi.obgs (by rw [← hun]; exact hu)
@@ -1058,6 +1117,7 @@ theorem step_shards {K : Kind} {cfg : Cfg} {st : State} {m : Mon} (hi : Inv K cf
   · simp [Mon.next, leaderChange]; exact hi.hb
   · simp [Mon.next, leaderChange]; exact hi.leader
   · exact cntInv_frame hi.cnt rfl (by first | (simp [Mon.next]; done) | (simp [Mon.next]; exact hi.cnt.clock)) (by simp [Mon.next, effective]) (by simp [Mon.next])
+  · exact flInv_frame hi.fl rfl rfl rfl (by simp [Mon.next, effective]) (by simp [Mon.next, rebuilds, effective, stopsRemote]) (by simp [Mon.next, rebuilds, effective, stopsRemote]) (by simp [Mon.next, rebuilds, effective, stopsRemote]) (by simp [Mon.next, rebuilds, effective, stopsRemote])
 
 theorem step_meter {K : Kind} {cfg : Cfg} {st : State} {m : Mon} (hi : Inv K cfg st m) (x : Meter)
     (hx : 0 < x.rateDen) : StepOK K cfg st m (.meter x) := by
@@ -1075,6 +1135,7 @@ theorem step_meter {K : Kind} {cfg : Cfg} {st : State} {m : Mon} (hi : Inv K cfg
   · simp [Mon.next, leaderChange]; exact hi.hb
   · simp [Mon.next, leaderChange]; exact hi.leader
   · exact cntInv_frame hi.cnt rfl (by first | (simp [Mon.next]; done) | (simp [Mon.next]; exact hi.cnt.clock)) (by simp [Mon.next, effective]) (by simp [Mon.next])
+  · exact flInv_frame hi.fl rfl rfl rfl (by simp [Mon.next, effective]) (by simp [Mon.next, rebuilds, effective, stopsRemote]) (by simp [Mon.next, rebuilds, effective, stopsRemote]) (by simp [Mon.next, rebuilds, effective, stopsRemote]) (by simp [Mon.next, rebuilds, effective, stopsRemote])
 
 theorem step_hb {K : Kind} {cfg : Cfg} {st : State} {m : Mon} (hi : Inv K cfg st m) (ok : Bool) (now : Int)
     (other : Bool) : StepOK K cfg st m (.hb ok now other) := by
@@ -1094,6 +1155,8 @@ theorem step_hb {K : Kind} {cfg : Cfg} {st : State} {m : Mon} (hi : Inv K cfg st
     · simp [Mon.next, leaderChange]; exact hi.hb
     · simp [Mon.next, leaderChange]; exact hi.leader
     · exact cntInv_frame hi.cnt rfl (by first | (simp [Mon.next]; done) | (simp [Mon.next]; exact hi.cnt.clock)) (by simp [Mon.next, effective]) (by simp [Mon.next])
+    · exact flInv_frame hi.fl rfl rfl rfl (by simp [Mon.next, effective]) (by simp [Mon.next, rebuilds, effective, stopsRemote]) (by simp [Mon.next, rebuilds, effective, stopsRemote]) (by simp [Mon.next, rebuilds, effective, stopsRemote]) (by simp [Mon.next, rebuilds, effective, stopsRemote])
+  · exact flInv_frame hi.fl rfl rfl rfl (by simp [Mon.next, effective]) (by simp [Mon.next, rebuilds, effective, stopsRemote]) (by simp [Mon.next, rebuilds, effective, stopsRemote]) (by simp [Mon.next, rebuilds, effective, stopsRemote]) (by simp [Mon.next, rebuilds, effective, stopsRemote])
   | false =>
     refine ⟨{ st with hb := some (hbStep (st.hb.getD {}) ok now), clock := now }, rfl, ?_, rfl⟩
     apply inv_of_frame hi (st' := { st with hb := some (hbStep (st.hb.getD {}) ok now), clock := now })
@@ -1109,6 +1172,8 @@ theorem step_hb {K : Kind} {cfg : Cfg} {st : State} {m : Mon} (hi : Inv K cfg st
     · simp [Mon.next]; exact hbStep_inv hi.hb ok now
     · simp [Mon.next, leaderChange]; exact hi.leader
     · exact cntInv_frame hi.cnt rfl (by first | (simp [Mon.next]; done) | (simp [Mon.next]; exact hi.cnt.clock)) (by simp [Mon.next, effective]) (by simp [Mon.next])
+    · exact flInv_frame hi.fl rfl rfl rfl (by simp [Mon.next, effective]) (by simp [Mon.next, rebuilds, effective, stopsRemote]) (by simp [Mon.next, rebuilds, effective, stopsRemote]) (by simp [Mon.next, rebuilds, effective, stopsRemote]) (by simp [Mon.next, rebuilds, effective, stopsRemote])
+  · exact flInv_frame hi.fl rfl rfl rfl (by simp [Mon.next, effective]) (by simp [Mon.next, rebuilds, effective, stopsRemote]) (by simp [Mon.next, rebuilds, effective, stopsRemote]) (by simp [Mon.next, rebuilds, effective, stopsRemote]) (by simp [Mon.next, rebuilds, effective, stopsRemote])
 
 theorem observe_unavail_noremote {cfg : Cfg} {st : State} {c : Cache} (hc : st.cache = some c) (hr : c.remote = none) :
     (observe cfg st).unavail = false := by
@@ -1215,6 +1280,7 @@ theorem inv_of_sync {K : Kind} {cfg : Cfg} {st : State} {m : Mon} {c : Cache} {s
         m'.prev = observe cfg { st with cache := some { c with remote := some r', cnt := cnt' } } →
         m'.meter = st.meter → m'.shards = st.shardCount → m'.hist = m.hist → m'.leader = st.leader →
         CntInv { st with cache := some { c with remote := some r', cnt := cnt' } } m' →
+        FlInv cfg { st with cache := some { c with remote := some r', cnt := cnt' } } m' →
         Inv K cfg { st with cache := some { c with remote := some r', cnt := cnt' } } m' := by
   have hc := hi.cache
   unfold CInv at hc
@@ -1231,13 +1297,13 @@ theorem inv_of_sync {K : Kind} {cfg : Cfg} {st : State} {m : Mon} {c : Cache} {s
   have ea : ap0 = boundByGlobalLimit s i := by rw [e3] at q2; exact (Option.some.inj q2).symm
   subst eg ea
   refine ⟨r', g0, e1, e2, e3, q6, ?_⟩
-  intro m' m1 m2 m3 m4 m5 m6 m7 m8 m9 m10
+  intro m' m1 m2 m3 m4 m5 m6 m7 m8 m9 m10 m11
   have hg : gfcOf { st with cache := some { c with remote := some r', cnt := cnt' } } = some g0 := by simp [gfcOf, e2]
   have hun : (observe cfg { st with cache := some { c with remote := some r', cnt := cnt' } }).unavail = g0.unavail := by
     rw [observe_unavail, hg]; rfl
   rw [hun] at m4
   have hob : m'.ob = obAfter m.ob (globalOf s) g0.unavail := by rw [m4]; rfl
-  refine ⟨m6, hi.meterOK, m7, by rw [m8]; exact hi.hb, m5, by rw [m3]; exact VS_globalOK h2, ?_, ?_, ?_, m9, m10⟩
+  refine ⟨m6, hi.meterOK, m7, by rw [m8]; exact hi.hb, m5, by rw [m3]; exact VS_globalOK h2, ?_, ?_, ?_, m9, m10, m11⟩
   · rw [m3, hob]
     cases g0.unavail with
     | true => exact BLe.sup_right _ _
@@ -1252,11 +1318,6 @@ theorem inv_of_sync {K : Kind} {cfg : Cfg} {st : State} {m : Mon} {c : Cache} {s
     subst this
     rw [m3, hob]
     exact ⟨i0, _, g0, q1, q2, q3, q4, q5, q6, q7⟩
-
-def GFC.wkind : GFC → Nat
-  | .empty _ => 1
-  | .miw _ => 2
-  | .tbw _ => 3
 
 theorem observe_wkind (cfg : Cfg) (st : State) : (observe cfg st).wkind = ((gfcOf st).map GFC.wkind).getD 0 := by
   simp only [observe, gfcOf]
@@ -1666,7 +1727,7 @@ theorem inv_of_cnt {K : Kind} {cfg : Cfg} {st st' : State} {m m' : Mon} {c : Cac
     (e_gs : m'.gs = m.gs) (e_ob : m'.ob = if (observe cfg st').unavail then m.ob.sup m.gs else m.gs)
     (e_prev : m'.prev = observe cfg st') (e_meter : m'.meter = st'.meter) (hmok : 0 < st'.meter.rateDen)
     (e_sh : m'.shards = st'.shardCount) (e_hb : HBInv st'.hb m'.hist) (e_leader : m'.leader = st'.leader)
-    (e_cnt : CntInv st' m') : Inv K cfg st' m' := by
+    (e_cnt : CntInv st' m') (e_fl : FlInv cfg st' m') : Inv K cfg st' m' := by
   have hg : gfcOf st' = gfcOf st := by simp [gfcOf, hc, hcache]
   have hun : (observe cfg st').unavail = (observe cfg st).unavail := by
     rw [observe_unavail, observe_unavail, hg]
@@ -1676,7 +1737,7 @@ theorem inv_of_cnt {K : Kind} {cfg : Cfg} {st st' : State} {m m' : Mon} {c : Cac
     | true => simp only [if_true]; exact sup_eq_left hi.gsob
     | false => simp only [Bool.false_eq_true, if_false]; exact (hi.obgs hu).symm
   refine ⟨e_meter, hmok, e_sh, e_hb, e_prev, by rw [e_gs]; exact hi.gsOK, by rw [e_gs, hob]; exact hi.gsob, ?_, ?_,
-    e_leader, e_cnt⟩
+    e_leader, e_cnt, e_fl⟩
   · intro hu
     rw [hob, e_gs]
     exact hi.obgs (by rw [← hun]; exact hu)
@@ -1756,7 +1817,7 @@ theorem inv_of_wrapper {K : Kind} {cfg : Cfg} {st st' : State} {m m' : Mon} {c :
     (m1 : m'.schema = some s) (m2 : m'.synced = m.synced) (m3 : m'.gs = m.gs)
     (m4 : m'.ob = if (observe cfg st').unavail then m.ob.sup m.gs else m.gs) (m5 : m'.prev = observe cfg st')
     (m6 : m'.meter = m.meter) (m7 : m'.shards = m.shards) (m8 : m'.hist = m.hist) (m9 : m'.leader = m.leader)
-    (m10 : CntInv st' m') : Inv K cfg st' m' := by
+    (m10 : CntInv st' m') (m11 : FlInv cfg st' m') : Inv K cfg st' m' := by
   have hc := hi.cache
   unfold CInv at hc
   rw [hcache, hsch] at hc
@@ -1765,7 +1826,7 @@ theorem inv_of_wrapper {K : Kind} {cfg : Cfg} {st st' : State} {m m' : Mon} {c :
   have hun : (observe cfg st').unavail = g'.unavail := by rw [observe_unavail, hgf]; rfl
   have hob : m'.ob = obAfter m.ob m.gs g'.unavail := by rw [m4, hun]; rfl
   refine ⟨by rw [m6, s1]; exact hi.meter, by rw [s1]; exact hi.meterOK, by rw [m7, s2]; exact hi.shards,
-    by rw [m8, s3]; exact hi.hb, m5, by rw [m3]; exact hi.gsOK, ?_, ?_, ?_, by rw [m9, s4]; exact hi.leader, m10⟩
+    by rw [m8, s3]; exact hi.hb, m5, by rw [m3]; exact hi.gsOK, ?_, ?_, ?_, by rw [m9, s4]; exact hi.leader, m10, m11⟩
   · rw [hob, m3]
     cases g'.unavail with
     | true => exact BLe.sup_right _ _
